@@ -30,6 +30,7 @@ _real_async_wait = asyncio.wait
 _real_ensure_future = asyncio.ensure_future
 
 LAST_GUARD_FRAMES: List[str] = []  # where the harness's case guard found a thread stuck inside tawazi
+PROGRESS = [0]  # events recorded by any execution of this process (read by the case guard of vlib/harness.py)
 STALL_S = 8.0  # no event for that long => the watchdog looks for a structural hang witness
 
 
@@ -142,6 +143,7 @@ class Exec:
 
     # ------------------------------------------------------------------ events
     def ev(self, k: str, **kw: Any) -> Dict[str, Any]:
+        PROGRESS[0] += 1
         with self.cv:
             e = {"seq": len(self.events), "k": k}
             e.update(kw)
